@@ -88,7 +88,10 @@ def run_impl(case):
     for lj in case["lines"]:
         line = codec.dec_data(lj)
         try:
-            outs.append(codec.enc_val(f.read(line)))
+            ret = codec.enc_val(f.read(line))
+            kept = codec.enc_val(f.value)  # what the field object holds afterwards (what Line.read gathers)
+            # the property is about both: a failed parse must not leave the previous value behind
+            outs.append(ret if ret == kept else {"exc": "ReturnedAndStoredDiffer", "msg": f"read() returned {ret} but field.value is {kept}"})
         except Exception as e:
             outs.append(codec.enc_exc(e))
         span = span_of(case["field"], line)
@@ -116,7 +119,7 @@ def judge(case, obs, resp):
         b = resp["first_bad"]
         i = b["index"]
         got = obs["outs"][i]
-        what = f"raised {got['exc']}" if isinstance(got, dict) and "exc" in got else f"returned {got}"
+        what = (got.get("msg") or f"raised {got['exc']}") if isinstance(got, dict) and "exc" in got else f"returned {got}"
         return {"status": "oracle", "why": f"read #{i} {what}; the span means {b['expected']}"}
     return {"status": "ok", "why": ""}
 
